@@ -1043,6 +1043,15 @@ fn is_compound_assignment_start(p: &LuaParser) -> bool {
 
 fn parse_label_stat(p: &mut LuaParser) -> ParseResult {
     let m = p.mark(LuaSyntaxKind::LabelStat);
+    if !p.parse_config.support(LuaFeatures::Goto) {
+        p.push_error(LuaParseError::syntax_error_from(
+            &t!(
+                "labels are not supported for current version: %{level}",
+                level = p.parse_config.level
+            ),
+            p.current_token_range(),
+        ));
+    }
     p.bump();
     match expect_token(p, LuaTokenKind::TkName) {
         Ok(_) => {}
